@@ -311,6 +311,21 @@ def step13' (d : D) (line : String) : D × String :=
       | .ok ts => (d, if ts > w then s!"ok {ts}" else s!"FAIL commit {ts}")
       | r => (d, commitStr r)
     | _, _, _ => (d, "bad-op")
+  | ["chk-commitwait", mode, causal, beh, start, c, ms, script] =>
+    let m : Option CMode := match mode with
+      | "2pc" => some .twoPC | "async" => some .async | "1pc" => some .onePC | "pipelined" => some .pipelined | _ => none
+    let b : Option StoreBeh := match beh with
+      | "normal" => some .normal | "expired" => some .expired | "fallback" => some .fallback | _ => none
+    match m, b, start.toNat?, c.toNat?, ms.toNat?, parseScript script with
+    | some m, some b, some st, some c, some ms, some sc =>
+      -- the store behaviours only exist for the modes that can meet them
+      let b := if (b == .expired && (m == .async || m == .onePC)) || (b == .fallback && (m == .twoPC || m == .pipelined)) then .normal else b
+      match commitTxn m (causal == "1") b st c ms sc with
+      | .ok ts mn =>
+        let bad := !(ts > c) || ((m == .async || m == .onePC) && !(mn > c))
+        (d, if bad then s!"FAIL commit-ts-not-above-constraint commit={ts} min={mn} constraint={c}" else s!"ok {ts} min {mn}")
+      | .err e => (d, commitStr e)
+    | _, _, _, _, _, _ => (d, "bad-op")
   | ["stress", n, rounds, seed] =>
     match n.toNat?, rounds.toNat?, seed.toNat? with
     | some n, some r, some sd => if n = 0 || n > 64 || r > 1000 then (d, "bad-op") else (d, stress n r sd)
